@@ -330,9 +330,9 @@ static void *cr_thread(void *arg)
 static void gen(void)
 {
 	int t, i, maxthr = usim_tier() ? 5 : 4, maxops = usim_tier() ? 8 : 6;
-	static const int cpus[] = { 1, 2, 4 };
+	static const int cpus[] = { 1, 2, 3, 4 };
 
-	ncpus = (int) usim_param("ncpus", cpus[rnd(3)]);
+	ncpus = (int) usim_param("ncpus", cpus[rnd(4)]);
 	usim_set_ncpus(ncpus);
 	nthreads = (int) usim_param("nthreads", 1 + rnd(maxthr));
 	usim_describe("{\"flavor\":\"%s\",\"ncpus\":%d,", F->name, ncpus);
